@@ -6,6 +6,7 @@ import (
 	"fmt"
 	"net"
 	"strings"
+	"sync"
 	"time"
 
 	"github.com/saucelabs/forwarder"
@@ -17,6 +18,12 @@ const originHost = "origin-a.test"
 func echoHandler(oc *lib.OConn, req *lib.Msg) lib.Action {
 	oc.Write(lib.SimpleResponse(200, "OK", []lib.Field{{"X-Vid", req.Get1("X-Vid")}}, []byte("ok")))
 	return lib.Continue
+}
+
+// upstreamProxyHandler: a scripted upstream proxy that accepts every CONNECT and ends the tunnel.
+func upstreamProxyHandler(oc *lib.OConn, req *lib.Msg) lib.Action {
+	oc.Write([]byte("HTTP/1.1 200 OK\r\n\r\n"))
+	return lib.Close
 }
 
 type inst struct {
@@ -62,42 +69,61 @@ func main() {
 	run := lib.Start("C18", "generated Via chains (0-5 elements: other hops with protocol names/versions, host:port, comments; this instance's own element at first/middle/last position with any protocol version, followed or not by later hops; same-name different-tag near misses; elements spread over 1-3 field lines) sent origin-form, absolute-form and inside MITM, over HTTP/1.1 and 1.0; plus real loops of one instance (upstream = itself) and two instances (A->B->A) and same-name chains without a loop; distinct = (mode, proto, chain length, own position, lines, near-miss) signatures")
 	root := run.RNG()
 
-	// ---- (d) generated chains against one instance, direct and MITM
-	for mi, mitm := range []bool{false, true} {
+	// ---- (d) generated chains against one instance: direct, MITM, and CONNECT forwarded to a
+	// scripted upstream proxy (http and https)
+	for mi, mode := range []string{"direct", "mitm", "connect-http", "connect-https"} {
+		mitm := mode == "mitm"
 		var ca *lib.CA
 		var tlsCfg *tls.Config
 		if mitm {
 			ca = lib.NewCA("verif origin CA")
 			tlsCfg = &tls.Config{Certificates: []tls.Certificate{ca.ValidLeaf(originHost)}}
 		}
-		origin := lib.MustOrigin("origin", "127.0.0.1:0", tlsCfg, echoHandler)
+		handler := echoHandler
+		if strings.HasPrefix(mode, "connect-") {
+			handler = upstreamProxyHandler
+			if mode == "connect-https" {
+				ca = lib.NewCA("verif upstream CA")
+				tlsCfg = &tls.Config{Certificates: []tls.Certificate{ca.ValidLeaf("127.0.0.1")}}
+			}
+		}
+		origin := lib.MustOrigin("origin", "127.0.0.1:0", tlsCfg, handler)
 		hop := origin.Addr
 		p := lib.MustProxy(lib.ProxyOpts{
 			Cfg: func(cfg *forwarder.HTTPProxyConfig) {
 				if mitm {
 					cfg.MITM = forwarder.DefaultMITMConfig()
 				}
+				if strings.HasPrefix(mode, "connect-") {
+					u, _ := forwarder.ParseProxyURL(strings.TrimPrefix(mode, "connect-") + "://" + hop)
+					cfg.UpstreamProxy = u
+				}
 			},
 			Transport: func(tc *forwarder.HTTPTransportConfig) {
-				tc.RedirectFunc = func(network, address string) (string, string) { return network, hop }
-				if mitm {
+				if !strings.HasPrefix(mode, "connect-") {
+					tc.RedirectFunc = func(network, address string) (string, string) { return network, hop }
+				}
+				if ca != nil {
 					tc.CACertFiles = []string{lib.DataURI(ca.CertPEM)}
 				}
 			}})
-		own := calibrate(run, p, mitm, origin)
+		own := calibrate(run, p, mode, origin)
 		if own == "" {
 			p.Stop()
 			origin.Close()
 			continue
 		}
 		n := run.N(700, 20000)
+		if strings.HasPrefix(mode, "connect-") {
+			n = run.N(250, 6000)
+		}
 		for i := 0; i < n; i++ {
 			idx := mi*1_000_000 + i
 			if !run.Want(idx) {
 				continue
 			}
 			r := root.Sub(uint64(idx))
-			oneChain(run, r, idx, p, origin, own, mitm)
+			oneChain(run, r, idx, p, origin, own, mode)
 		}
 		p.Stop()
 		origin.Close()
@@ -105,35 +131,48 @@ func main() {
 	loops(run, root)
 	run.Floor("refused_with_own_element", 200)
 	run.Floor("forwarded_chains", 200)
-	run.Floor("real_loops_terminated", 4)
+	run.Floor("real_loops_terminated", 8)
 	run.Finish()
 }
 
-func calibrate(run *lib.Run, p *lib.Proxy, mitm bool, origin *lib.Origin) string {
-	s, err := connect(p, mitm)
+func calibrate(run *lib.Run, p *lib.Proxy, mode string, origin *lib.Origin) string {
+	s, err := connect(p, mode == "mitm")
 	if err != nil {
 		run.Inconclusive("calibrate: " + err.Error())
 		return ""
 	}
 	defer s.Close()
-	fmt.Fprintf(s.C, "GET /calib HTTP/1.1\r\nHost: %s\r\nX-Vid: calib\r\n\r\n", originHost)
-	if _, st, _ := s.ReadResponse("GET", 10*time.Second); st != lib.POK {
+	method := "GET"
+	if strings.HasPrefix(mode, "connect-") {
+		method = "CONNECT"
+		fmt.Fprintf(s.C, "CONNECT %s:443 HTTP/1.1\r\nHost: %s:443\r\nX-Vid: calib\r\n\r\n", originHost, originHost)
+	} else {
+		fmt.Fprintf(s.C, "GET /calib HTTP/1.1\r\nHost: %s\r\nX-Vid: calib\r\n\r\n", originHost)
+	}
+	if _, st, _ := s.ReadResponse(method, 10*time.Second); st != lib.POK {
 		run.Inconclusive("calibrate: no response")
 		return ""
 	}
-	for _, q := range origin.Requests() {
-		if q.Get1("X-Vid") == "calib" {
+	time.Sleep(50 * time.Millisecond)
+	qs := origin.Requests()
+	for i, q := range qs {
+		// (a CONNECT forwarded to an upstream proxy is identified by position if its fields are missing)
+		if q.Get1("X-Vid") == "calib" || (strings.HasPrefix(mode, "connect-") && i == len(qs)-1) {
 			v := lib.SplitList(q.Get("Via"))
 			if len(v) == 1 && strings.HasPrefix(v[0], "1.1 forwarder-") && len(v[0]) > len("1.1 forwarder-")+8 {
 				return strings.TrimPrefix(v[0], "1.1 ")
 			}
-			run.Violation("via-element-shape", fmt.Sprintf("request without Via arrived with Via %q, want one element '1.1 forwarder-<unique tag>'", v), -1, nil)
+			run.Violation("via-element-shape:"+mode, fmt.Sprintf("request without Via arrived with Via %q, want one element '1.1 forwarder-<unique tag>'", v), -1, nil)
+			return ""
 		}
 	}
+	run.Inconclusive("calibrate: the request did not reach the next hop (" + mode + ")")
 	return ""
 }
 
-func oneChain(run *lib.Run, r *lib.RNG, idx int, p *lib.Proxy, origin *lib.Origin, own string, mitm bool) {
+func oneChain(run *lib.Run, r *lib.RNG, idx int, p *lib.Proxy, origin *lib.Origin, own string, mode string) {
+	mitm := mode == "mitm"
+	viaConnect := strings.HasPrefix(mode, "connect-")
 	n := r.Intn(6)
 	var els []string
 	for i := 0; i < n; i++ {
@@ -178,19 +217,25 @@ func oneChain(run *lib.Run, r *lib.RNG, idx int, p *lib.Proxy, origin *lib.Origi
 	if r.Chance(1, 5) {
 		proto = "HTTP/1.0"
 	}
-	abs := !mitm && r.Chance(1, 2)
+	abs := !mitm && !viaConnect && r.Chance(1, 2)
 	id := fmt.Sprintf("v%d", idx)
 	target := "/p/" + id
 	if abs {
 		target = "http://" + originHost + target
 	}
 	var sb strings.Builder
-	fmt.Fprintf(&sb, "GET %s %s\r\nHost: %s\r\nX-Vid: %s\r\n", target, proto, originHost, id)
+	method := "GET"
+	if viaConnect {
+		method = "CONNECT"
+		fmt.Fprintf(&sb, "CONNECT %s:443 %s\r\nHost: %s:443\r\nX-Vid: %s\r\n", originHost, proto, originHost, id)
+	} else {
+		fmt.Fprintf(&sb, "GET %s %s\r\nHost: %s\r\nX-Vid: %s\r\n", target, proto, originHost, id)
+	}
 	for _, l := range lines {
 		fmt.Fprintf(&sb, "%s: %s\r\n", lib.Pick(r, []string{"Via", "via", "VIA"}), l)
 	}
 	sb.WriteString("\r\n")
-	shape := fmt.Sprintf("mitm=%v|abs=%v|%s|n=%d|own=%d|lines=%d|near=%v", mitm, abs, proto, len(els), ownPos, len(lines), near)
+	shape := fmt.Sprintf("%s|abs=%v|%s|n=%d|own=%d|lines=%d|near=%v", mode, abs, proto, len(els), ownPos, len(lines), near)
 	run.Case(idx, shape, map[string]any{"via_lines": lines})
 	if idx%700 == 0 {
 		run.Sample(map[string]any{"case": idx, "request": sb.String(), "own_element_position": ownPos})
@@ -201,19 +246,28 @@ func oneChain(run *lib.Run, r *lib.RNG, idx int, p *lib.Proxy, origin *lib.Origi
 		return
 	}
 	defer s.Close()
-	acc0, dial0 := origin.Accepts(), p.Dials()
+	acc0, dial0, req0 := origin.Accepts(), p.Dials(), len(origin.Requests())
 	s.C.Write([]byte(sb.String()))
-	res, st, err := s.ReadResponse("GET", 15*time.Second)
+	res, st, err := s.ReadResponse(method, 15*time.Second)
 	if st != lib.POK {
 		run.Violation("no-response", fmt.Sprintf("no complete response (%v)", err), idx, map[string]any{"request": sb.String()})
 		return
 	}
-	wit := map[string]any{"request": sb.String(), "status": res.Status, "own": own}
+	wit := map[string]any{"request": sb.String(), "status": res.Status, "own": own, "mode": mode}
 	var rec *lib.Msg
+	if viaConnect {
+		// the scripted upstream proxy records the CONNECT before it answers; give the record a moment
+		for t := time.Now(); ownPos < 0 && res.Status == 200 && len(origin.Requests()) == req0 && time.Since(t) < 2*time.Second; {
+			time.Sleep(time.Millisecond)
+		}
+	}
 	for _, q := range origin.Requests() {
 		if q.Get1("X-Vid") == id {
 			rec = q
 		}
+	}
+	if qs := origin.Requests(); rec == nil && viaConnect && len(qs) > req0 {
+		rec = qs[len(qs)-1] // cases run one at a time: the only new request at the scripted upstream proxy
 	}
 	if ownPos >= 0 {
 		run.Count("refused_with_own_element", 1)
@@ -243,7 +297,10 @@ func oneChain(run *lib.Run, r *lib.RNG, idx int, p *lib.Proxy, origin *lib.Origi
 		if len(got) > 0 && got[len(got)-1] != want[len(want)-1] {
 			k = "own-element-wrong"
 		}
-		run.Violation(k, fmt.Sprintf("origin saw Via %q, want %q", got, want), idx, wit)
+		if viaConnect {
+			k += ":" + mode
+		}
+		run.Violation(k, fmt.Sprintf("next hop saw Via %q, want %q", got, want), idx, wit)
 	}
 }
 
@@ -264,10 +321,12 @@ func lineClass(n int) string {
 	return "n"
 }
 
-// loops builds real forwarding loops.
+// loops builds real forwarding loops: one instance whose upstream is itself, two instances
+// pointing at each other, and a same-name chain without a loop; with plain requests and with
+// CONNECT, over http and https upstream proxy URLs. A guard stops the instances if a loop runs away.
 func loops(run *lib.Run, root *lib.RNG) {
 	const base = 9_000_000
-	n := run.N(6, 60)
+	n := run.N(12, 120)
 	for i := 0; i < n; i++ {
 		idx := base + i
 		if !run.Want(idx) {
@@ -276,16 +335,22 @@ func loops(run *lib.Run, root *lib.RNG) {
 		r := root.Sub(uint64(idx))
 		proto := lib.Pick(r, []string{"HTTP/1.1", "HTTP/1.0"})
 		kind := i % 3
+		method := []string{"GET", "CONNECT"}[(i/3)%2]
+		scheme := []string{"http", "https"}[(i/6)%2]
 		origin := lib.MustOrigin("origin", "127.0.0.1:0", nil, echoHandler)
 		hop := origin.Addr
 		mk := func(addr, upstream string) *lib.Proxy {
 			return lib.MustProxy(lib.ProxyOpts{Cfg: func(cfg *forwarder.HTTPProxyConfig) {
 				cfg.Address = addr
+				if scheme == "https" {
+					cfg.Protocol = forwarder.HTTPSScheme // self-signed certificate
+				}
 				if upstream != "" {
-					u, _ := forwarder.ParseProxyURL("http://" + upstream)
+					u, _ := forwarder.ParseProxyURL(scheme + "://" + upstream)
 					cfg.UpstreamProxy = u
 				}
 			}, Transport: func(tc *forwarder.HTTPTransportConfig) {
+				tc.Insecure = true
 				if upstream == "" {
 					tc.RedirectFunc = func(network, address string) (string, string) { return network, hop }
 				}
@@ -310,29 +375,87 @@ func loops(run *lib.Run, root *lib.RNG) {
 			wantCounts = []float64{1, 1}
 			wantStatus = 200
 		}
-		run.Case(idx, fmt.Sprintf("loop|kind=%d|%s", kind, proto), map[string]any{"kind": kind, "proto": proto})
-		s, err := lib.Dial(ps[0].Addr)
-		if err == nil {
-			fmt.Fprintf(s.C, "GET http://%s/loop %s\r\nHost: %s\r\nX-Vid: loop%d\r\n\r\n", originHost, proto, originHost, i)
-			res, st, rerr := s.ReadResponse("GET", 20*time.Second)
-			if st != lib.POK {
-				run.Violation("loop-no-response", fmt.Sprintf("loop topology %d: no response (%v)", kind, rerr), idx, nil)
-			} else {
-				var counts []float64
+		// runaway guard
+		var stopOnce sync.Once
+		stopAll := func() {
+			stopOnce.Do(func() {
 				for _, p := range ps {
-					counts = append(counts, reqsTotal(p))
+					p.Stop()
 				}
-				wit := map[string]any{"kind": kind, "proto": proto, "status": res.Status, "requests_per_instance": counts, "origin_requests": len(origin.Requests())}
-				if res.Status != wantStatus {
-					run.Violation(fmt.Sprintf("loop-status:kind=%d", kind), fmt.Sprintf("loop topology %d (%s): client got %d, want %d", kind, proto, res.Status, wantStatus), idx, wit)
+			})
+		}
+		runaway := make(chan float64, 1)
+		guardDone := make(chan struct{})
+		go func() {
+			for {
+				select {
+				case <-guardDone:
+					return
+				case <-time.After(3 * time.Millisecond):
 				}
-				if fmt.Sprint(counts) != fmt.Sprint(wantCounts) {
-					run.Violation(fmt.Sprintf("loop-not-terminated-at-first-repetition:kind=%d", kind), fmt.Sprintf("loop topology %d (%s): requests handled per instance %v, want %v", kind, proto, counts, wantCounts), idx, wit)
+				var sum float64
+				for _, p := range ps {
+					// (requests are counted when they end, tunnels in flight only show as dials)
+					sum += reqsTotal(p) + float64(p.Dials())
 				}
-				if kind != 2 && len(origin.Requests()) != 0 {
+				if sum > 40 {
+					runaway <- sum
+					stopAll()
+					return
+				}
+			}
+		}()
+		run.Case(idx, fmt.Sprintf("loop|kind=%d|%s|%s|%s", kind, method, scheme, proto), map[string]any{"kind": kind, "proto": proto, "method": method, "upstream_scheme": scheme})
+		var s *lib.Stream
+		var err error
+		if scheme == "https" {
+			var c *tls.Conn
+			c, err = tls.DialWithDialer(&net.Dialer{Timeout: 5 * time.Second}, "tcp", ps[0].Addr, &tls.Config{InsecureSkipVerify: true})
+			if err == nil {
+				s = lib.NewStream(c)
+			}
+		} else {
+			s, err = lib.Dial(ps[0].Addr)
+		}
+		if err != nil {
+			run.Inconclusive("loop: connecting to the first instance: " + err.Error())
+		} else {
+			if method == "CONNECT" {
+				fmt.Fprintf(s.C, "CONNECT %s:443 %s\r\nHost: %s:443\r\nX-Vid: loop%d\r\n\r\n", originHost, proto, originHost, i)
+			} else {
+				fmt.Fprintf(s.C, "GET http://%s/loop %s\r\nHost: %s\r\nX-Vid: loop%d\r\n\r\n", originHost, proto, originHost, i)
+			}
+			res, st, rerr := s.ReadResponse(method, 20*time.Second)
+			var counts []float64
+			for _, p := range ps {
+				counts = append(counts, reqsTotal(p))
+			}
+			wit := map[string]any{"kind": kind, "proto": proto, "method": method, "upstream_scheme": scheme, "requests_per_instance": counts, "origin_requests": len(origin.Requests())}
+			select {
+			case sum := <-runaway:
+				run.Violation(fmt.Sprintf("loop-not-terminated:kind=%d:%s:%s", kind, method, scheme), fmt.Sprintf("loop topology %d (%s via %s upstream): %v requests/dials had been made when the guard stopped the instances; the loop must end at its first repetition", kind, method, scheme, sum), idx, wit)
+			default:
+				if st != lib.POK {
+					run.Violation("loop-no-response", fmt.Sprintf("loop topology %d (%s via %s): no response (%v)", kind, method, scheme, rerr), idx, wit)
+					break
+				}
+				wit["status"] = res.Status
+				// (a refused CONNECT reaches the first client through the hops before it: any error status)
+				if res.Status != wantStatus && !(method == "CONNECT" && wantStatus == 400 && res.Status >= 400) {
+					run.Violation(fmt.Sprintf("loop-status:kind=%d:%s", kind, method), fmt.Sprintf("loop topology %d (%s %s via %s): client got %d, want %d", kind, method, proto, scheme, res.Status, wantStatus), idx, wit)
+				}
+				if kind == 2 && method == "CONNECT" {
+					// an open tunnel is not counted before it ends: the origin must have been reached once
+					if origin.Accepts() != 1 {
+						run.Violation("same-name-chain-connect", fmt.Sprintf("CONNECT through two same-name instances: origin accepted %d connections, want 1", origin.Accepts()), idx, wit)
+					}
+				} else if fmt.Sprint(counts) != fmt.Sprint(wantCounts) {
+					run.Violation(fmt.Sprintf("loop-not-terminated-at-first-repetition:kind=%d:%s:%s", kind, method, scheme), fmt.Sprintf("loop topology %d (%s %s via %s): requests handled per instance %v, want %v", kind, method, proto, scheme, counts, wantCounts), idx, wit)
+				}
+				if kind != 2 && (len(origin.Requests()) != 0 || origin.Accepts() != 0) {
 					run.Violation("loop-reached-origin", "a looping request reached the origin", idx, wit)
 				}
-				if kind == 2 {
+				if kind == 2 && method == "GET" {
 					q := origin.Requests()
 					if len(q) == 1 {
 						v := lib.SplitList(q[0].Get("Via"))
@@ -345,9 +468,8 @@ func loops(run *lib.Run, root *lib.RNG) {
 			}
 			s.Close()
 		}
-		for _, p := range ps {
-			p.Stop()
-		}
+		close(guardDone)
+		stopAll()
 		origin.Close()
 	}
 }
